@@ -18,6 +18,7 @@ import (
 	sdk "github.com/cosmos/cosmos-sdk/types"
 	"github.com/ethereum/go-ethereum/common"
 
+	"github.com/functionx/fx-core/v8/contract"
 	"github.com/functionx/fx-core/v8/testutil/helpers"
 	fxtypes "github.com/functionx/fx-core/v8/types"
 	crosschainkeeper "github.com/functionx/fx-core/v8/x/crosschain/keeper"
@@ -235,10 +236,43 @@ func (a *Adapter) Apply(ctx sdk.Context, op graph.Op) (sdk.Context, string) {
 	var err error
 	switch op.Name() {
 	case "Send":
-		err = w.Handle(ctx, &types.MsgSendToExternal{ChainName: ch, Sender: a.user(op.Str("u")).AccAddress().String(), Dest: a.dest,
+		u := a.user(op.Str("u"))
+		if op.Str("e") == "evm" {
+			// the same request entered through the crossChain precompile: convert to ERC-20, approve, crossChain
+			// (one atomic unit: if the precompile call fails nothing of the preparation remains)
+			total := unit.MulRaw(op.Int("a") + op.Int("f"))
+			err = world.Atomic(ctx, func(c sdk.Context) error {
+				if e := w.Handle(c, &erc20types.MsgConvertCoin{Coin: sdk.NewCoin(a.denom, total), Receiver: u.Address().Hex(), Sender: u.AccAddress().String()}); e != nil {
+					return e
+				}
+				appr, e := contract.GetFIP20().ABI.Pack("approve", types.GetAddress(), total.BigInt())
+				must(e)
+				if ok, msg := w.EthCall(c, u, a.erc20, 1_000_000, appr); !ok {
+					return fmt.Errorf("approve: %s", msg)
+				}
+				data, e := precompile.NewCrossChainMethod(nil).PackInput(types.CrossChainArgs{Token: a.erc20, Receipt: a.dest, Amount: unit.MulRaw(op.Int("a")).BigInt(),
+					Fee: unit.MulRaw(op.Int("f")).BigInt(), Target: fxtypes.MustStrToByte32(ch), Memo: ""})
+				must(e)
+				if ok, msg := w.EthCall(c, u, types.GetAddress(), 3_000_000, data); !ok {
+					return fmt.Errorf("crossChain: %s", msg)
+				}
+				return nil
+			})
+			break
+		}
+		err = w.Handle(ctx, &types.MsgSendToExternal{ChainName: ch, Sender: u.AccAddress().String(), Dest: a.dest,
 			Amount: a.coin(op.Int("a")), BridgeFee: a.coin(op.Int("f"))})
 	case "Cancel":
-		err = w.Handle(ctx, &types.MsgCancelSendToExternal{ChainName: ch, Sender: a.user(op.Str("u")).AccAddress().String(), TransactionId: uint64(op.Int("id"))})
+		u := a.user(op.Str("u"))
+		if op.Str("e") == "evm" {
+			data, e := precompile.NewCancelSendToExternalMethod(nil).PackInput(ch, big.NewInt(op.Int("id")))
+			must(e)
+			if ok, msg := w.EthCall(ctx, u, types.GetAddress(), 3_000_000, data); !ok {
+				err = fmt.Errorf("cancelSendToExternal: %s", msg)
+			}
+			break
+		}
+		err = w.Handle(ctx, &types.MsgCancelSendToExternal{ChainName: ch, Sender: u.AccAddress().String(), TransactionId: uint64(op.Int("id"))})
 	case "IncreaseFee":
 		fee := sdk.NewCoin(a.bridgeDen, unit.MulRaw(op.Int("f")))
 		if op.Str("e") == "other" {
